@@ -20,7 +20,7 @@ META = {
     "stubs": ["Taus.tau_energy / Taus.tau_exit_prob -> symbolic columns (covered by C04 / C05)", "np.log / np.exp -> Ackermannised, strictly monotone mutual inverses, log(1)=0", "np.sin of the emergence angle -> point on the unit circle with monotonicity on [-pi/2, pi/2]"],
     "assumptions": ["REAL mode", "reference constants: c = 299792.458 km/s, tau0 = 2.903e-13 s, m_tau = 1.77686 GeV (PDG), compared within 1e-6 relative", "Earth radius: astropy R_earth in km as used by the code"],
 }
-LEDGER = {"quick": 48, "thorough": 60}
+LEDGER = {"quick": 78, "thorough": 90}
 C_KM_S = Fr(299792458, 1000)
 TAU0 = Fr(2903, 10**16)
 MTAU = Fr(177686, 100000)
@@ -185,13 +185,20 @@ def chain_run(N):
         order = [i for i in range(N) if pat[i] in "aVb"] + [i for i in range(N) if pat[i] == "L"]  # draw order of the implementation is not assumed:
         claims = {}
         tag = f"(pattern {pat})"
+        before = [core.eterm(e) if C.euf else SV.of(e).term() for e in betas.a]
+        betas.tag = "beta"
+        ev0 = len(C.events)
         with P4.fixed_draws([us[i] for i in order] * 4 + us * 4):
             try:
                 tauBeta, tauLorentz, tauEnergy, showerEnergy, _px = T(betas, les)
                 err = None
             except Exception as e:  # noqa
                 err = e
+        betas.tag = None
+        mutated = [e for e in C.events[ev0:] if e[0] == "mutate-input"]
+        after = [core.eterm(e) if C.euf else SV.of(e).term() for e in betas.a]
         claims[f"Taus.__call__ accepts the batch {tag}"] = z3.BoolVal(err is None)
+        claims[f"the emergence angles (used afterwards for the decay altitude) are not modified by Taus.__call__ {tag}"] = z3.BoolVal(not mutated and all(a.eq(b) for a, b in zip(before, after)))
         if err is None:
             for i in range(N):
                 if pat[i] == "H":
@@ -263,6 +270,36 @@ def replay(v):
     if job.startswith("data "):
         return tables.replay_data(v)
     m = {k: x for k, x in (v.get("model") or {}).items() if x is not None}
+    if job.startswith("Taus.__call__ with the real tau_energy"):
+        # the regimes of the chain job on the real tables: angles below the table, exactly ON the first and the
+        # last tabulated angle, inside; every sampled tau must have gamma = E/m >= 1 and a speed in (0,1)
+        import warnings
+
+        from nuspacesim.config import NssConfig
+        from nuspacesim.simulation.taus.taus import Taus, massTau
+
+        warnings.simplefilter("ignore")
+        T = Taus(NssConfig())
+        bax = np.asarray(T.tau_cdf_grid["beta_rad"], dtype=float)
+        b0, b1 = float(bax[0]), float(bax[-1])
+        betas = np.array([b0 * 0.3, b0, np.nextafter(b0, 1), 0.5 * (b0 + b1), float(bax[len(bax) // 2]), np.nextafter(b1, 0), b1])
+        for le in (8.0, 9.5, 10.5):
+            np.random.seed(7)
+            with np.errstate(all="ignore"):
+                tb, tl, te, se, _px = T(betas.copy(), np.full(betas.shape, le))
+            given = betas.copy()
+            np.random.seed(7)
+            with np.errstate(all="ignore"):
+                T(given, np.full(betas.shape, le))
+            if not np.array_equal(given, betas):
+                k = int(np.flatnonzero(given != betas)[0])
+                return {"reproduced": True, "key": "Taus.__call__ modifies the emergence angles it is given",
+                        "detail": f"emergence angle {betas[k]!r} rad became {given[k]!r} rad in the caller's array (the decay altitude is computed from that array afterwards)"}
+            for i, b in enumerate(betas):
+                if not (np.isfinite(te[i]) and te[i] > massTau and tl[i] >= 1 and abs(tl[i] * massTau - te[i]) <= 1e-9 * te[i] and 0 < tb[i] < 1):
+                    return {"reproduced": True, "key": "Taus.__call__: a sampled tau has no physical kinematics",
+                            "detail": f"emergence angle {b!r} rad (table range [{b0!r}, {b1!r}]), log10(E_nu) = {le}: tauEnergy = {te[i]!r} GeV, tauLorentz = {tl[i]!r}, tauBeta = {tb[i]!r}"}
+        return {"reproduced": False, "key": None, "detail": "real tables: every sampled tau has gamma >= 1 and 0 < speed < 1 in all regimes"}
     if job.startswith("EAS.altDec"):
         N = int(job.split("N=")[1].rstrip(")"))
         d = {}
